@@ -271,7 +271,7 @@ def is_conserved(F, sources, sinks):
 
 def build_matrix(case):
     """-> (array handed to the library, base array that owns the memory)."""
-    F = np.array(case["F"], dtype=case["dtype"])
+    F = ref_matrix(case)
     lay = case.get("layout", "C")
     n = F.shape[0]
     if lay == "F":
@@ -322,7 +322,12 @@ def call_paths(case):
 
 
 def ref_matrix(case):
-    return np.array(case["F"], dtype=case["dtype"])
+    F = np.array(case["F"], dtype=case["dtype"])
+    e = case.get("scale_exp", 0)
+    if e:
+        # power-of-two rescaling (exact): net fluxes of real models are tiny numbers (populations x probabilities)
+        F = (F * np.float64(2.0) ** e).astype(case["dtype"])
+    return F
 
 
 def outflow(case):
@@ -338,7 +343,7 @@ def describe(case, ps=None, fl=None, extra=()):
           "container=" + case.get("container", "list"), "n=%d" % F.shape[0],
           "multi_source=%s" % (len(src) > 1), "multi_sink=%s" % (len(snk) > 1),
           "has_path=%s" % (best is not None), "conserved=%s" % is_conserved(F, src, snk),
-          "weights=" + case.get("wkind", "?"), "self_loops=%s" % bool(np.diag(F).any()),
+          "weights=" + case.get("wkind", "?"), "scale=2^%d" % case.get("scale_exp", 0), "self_loops=%s" % bool(np.diag(F).any()),
           "cyclic=%s" % _cyclic(pos)]
     if "scheme" in case:
         cl.append("scheme=" + case["scheme"])
@@ -428,7 +433,8 @@ def graph_case(draw, kinds=("conserved", "digraph", "perturbed"), nmax=9, with_s
                 j = draw(st.integers(0, n - 1))
                 if i != j:
                     F[i][j] = F[i][j] + _weight(draw, wkind)
-    case = {"kind": kind, "wkind": wkind, "F": F, "sources": sources, "sinks": sinks, "dtype": dtype,
+    scale_exp = 0 if dtype != "float64" else draw(st.sampled_from([0, 0, 0, -30, -20, -40, 20]))
+    case = {"kind": kind, "wkind": wkind, "F": F, "sources": sources, "sinks": sinks, "dtype": dtype, "scale_exp": scale_exp,
             "layout": draw(st.sampled_from(["C", "C", "F", "view"])),
             "container": draw(st.sampled_from(["list", "ndarray", "tuple"]))}
     if with_scheme:
